@@ -1,5 +1,5 @@
 (* C38 -- proofs about the least fixpoints of the three path/2 programs *)
-From Coq Require Import NArith List Bool Lia Relations Relation_Operators Operators_Properties.
+From Coq Require Import Arith NArith List Bool Lia Relations Relation_Operators Operators_Properties.
 From V Require Import C38.Model.
 Import ListNotations.
 Open Scope N_scope.
@@ -128,7 +128,7 @@ Proof. intros. unfold universe. apply in_prod_iff. Qed.
 Lemma tp_true : forall k E I x y, tp k E I x y = true <->
   In (x, y) E \/ exists z, In z (verts E) /\ step k E I x y z = true.
 Proof.
-  intros k E I x y. unfold tp. rewrite orb_true_iff, erel_spec, existsb_exists. reflexivity.
+  intros k E I x y. unfold tp. cbv beta zeta. rewrite orb_true_iff, erel_spec, existsb_exists. reflexivity.
 Qed.
 
 Lemma tp_mono : forall k E I J, le_rel I J -> le_rel (tp k E I) (tp k E J).
@@ -149,19 +149,52 @@ Proof.
     + apply HI in H1. apply HI in H2. apply universe_spec in H1. apply universe_spec in H2. tauto.
 Qed.
 
+Lemma pair_mem_spec : forall p l, pair_mem p l = true <-> In p l.
+Proof.
+  intros [x y] l. unfold pair_mem. rewrite existsb_exists. cbn [fst snd]. split.
+  - intros [[a b] [HIn H]]. cbn [fst snd] in H. apply andb_true_iff in H. destruct H as [H1 H2].
+    apply N.eqb_eq in H1. apply N.eqb_eq in H2. subst. exact HIn.
+  - intro HIn. exists (x, y). split; [exact HIn|]. cbn [fst snd]. rewrite !N.eqb_refl. reflexivity.
+Qed.
+
+Lemma tabulate_spec : forall U I x y, tabulate U I x y = true <-> In (x, y) U /\ I x y = true.
+Proof.
+  intros U I x y. unfold tabulate. rewrite pair_mem_spec, filter_In. cbn [fst snd]. reflexivity.
+Qed.
+
+Lemma tpt_mono : forall k E I J, le_rel I J -> le_rel (tpt k E I) (tpt k E J).
+Proof.
+  intros k E I J H x y. unfold tpt. rewrite !tabulate_spec. intros [H1 H2]. split; [exact H1|].
+  eapply tp_mono; eassumption.
+Qed.
+
+Lemma tpt_supp : forall k E I, (forall x y, I x y = true -> In (x, y) (universe E)) ->
+  forall x y, tpt k E I x y = true -> In (x, y) (universe E).
+Proof. intros k E I _ x y. unfold tpt. rewrite tabulate_spec. tauto. Qed.
+
+Lemma lfp_supp : forall k E x y, lfp k E x y = true -> In (x, y) (universe E).
+Proof. intros k E x y. unfold lfp. exact (it_supp (universe E) (tpt k E) (tpt_supp k E) (S (length (universe E))) x y). Qed.
+
 Lemma lfp_fix_eq : forall k E, eq_rel (tp k E (lfp k E)) (lfp k E).
 Proof.
-  intros k E. unfold lfp. apply (generic_fix (universe E) (tp k E) (tp_mono k E) (tp_supp k E)).
+  intros k E x y.
+  pose proof (generic_fix (universe E) (tpt k E) (tpt_mono k E) (tpt_supp k E) x y) as H.
+  change (it (tpt k E) (S (length (universe E)))) with (lfp k E) in H. rewrite <- H. unfold tpt.
+  destruct (tp k E (lfp k E) x y) eqn:E1.
+  - symmetry. apply tabulate_spec. split; [|exact E1]. eapply tp_supp; [apply lfp_supp | exact E1].
+  - destruct (tabulate (universe E) (tp k E (lfp k E)) x y) eqn:E2; [|reflexivity].
+    apply tabulate_spec in E2. destruct E2 as [_ E2]. congruence.
 Qed.
 
 (* ------------------------------------------------------------------ reachability *)
 Definition edge (E : edges) : relation N := fun a b => In (a, b) E.
 Definition reach (E : edges) : relation N := clos_trans N (edge E).
 
-Lemma iter_sub_reach : forall k E n x y, iter n (tp k E) empty_rel x y = true -> reach E x y.
+Lemma iter_sub_reach : forall k E n x y, iter n (tpt k E) empty_rel x y = true -> reach E x y.
 Proof.
   intros k E. induction n as [|n IH]; intros x y H; [discriminate|].
-  cbn [iter] in H. apply tp_true in H. destruct H as [HE|[z [Hz Hs]]]; [apply t_step; exact HE|].
+  cbn [iter] in H. unfold tpt at 1 in H. apply tabulate_spec in H. destruct H as [_ H].
+  apply tp_true in H. destruct H as [HE|[z [Hz Hs]]]; [apply t_step; exact HE|].
   destruct k; cbn [step] in Hs; apply andb_true_iff in Hs; destruct Hs as [H1 H2].
   - apply erel_spec in H2. eapply t_trans; [apply IH; exact H1 | apply t_step; exact H2].
   - apply erel_spec in H1. eapply t_trans; [apply t_step; exact H1 | apply IH; exact H2].
@@ -206,25 +239,17 @@ Qed.
 
 Lemma lfp_pairs_spec : forall k E x y, In (x, y) (lfp_pairs k E) <-> reach E x y.
 Proof.
-  intros k E x y. unfold lfp_pairs. rewrite filter_In. cbn [fst snd]. rewrite lfp_reach. split; [tauto|].
+  intros k E x y. unfold lfp_pairs, pairs_of. rewrite filter_In. cbn [fst snd]. rewrite lfp_reach. split; [tauto|].
   intro H. split; [|exact H]. apply universe_spec. apply reach_verts. exact H.
 Qed.
 
 Lemma lfp_from_spec : forall k E x y, In y (lfp_from k E x) <-> reach E x y.
 Proof.
-  intros k E x y. unfold lfp_from. rewrite filter_In, lfp_reach. split; [tauto|].
+  intros k E x y. unfold lfp_from, from_of. rewrite filter_In, lfp_reach. split; [tauto|].
   intro H. split; [|exact H]. apply reach_verts in H. tauto.
 Qed.
 
 (* ------------------------------------------------------------------ the comparison functions *)
-Lemma pair_mem_spec : forall p l, pair_mem p l = true <-> In p l.
-Proof.
-  intros [x y] l. unfold pair_mem. rewrite existsb_exists. cbn [fst snd]. split.
-  - intros [[a b] [HIn H]]. cbn [fst snd] in H. apply andb_true_iff in H. destruct H as [H1 H2].
-    apply N.eqb_eq in H1. apply N.eqb_eq in H2. subst. exact HIn.
-  - intro HIn. exists (x, y). split; [exact HIn|]. cbn [fst snd]. rewrite !N.eqb_refl. reflexivity.
-Qed.
-
 Lemma n_mem_spec : forall x l, n_mem x l = true <-> In x l.
 Proof.
   intros x l. unfold n_mem. rewrite existsb_exists. split.
@@ -234,7 +259,7 @@ Qed.
 
 Lemma check_all_spec : forall k E obs, check_all k E obs = true <-> (forall x y, In (x, y) obs <-> reach E x y).
 Proof.
-  intros k E obs. unfold check_all. rewrite andb_true_iff, !forallb_forall. split.
+  intros k E obs. unfold check_all, check_all_with. fold (lfp_pairs k E). rewrite andb_true_iff, !forallb_forall. split.
   - intros [H1 H2] x y. split.
     + intro HIn. apply H2 in HIn. cbn [fst snd] in HIn. apply lfp_reach in HIn. exact HIn.
     + intro HR. apply pair_mem_spec. apply H1. apply lfp_pairs_spec. exact HR.
@@ -245,11 +270,101 @@ Qed.
 
 Lemma check_from_spec : forall k E x obs, check_from k E x obs = true <-> (forall y, In y obs <-> reach E x y).
 Proof.
-  intros k E x obs. unfold check_from. rewrite andb_true_iff, !forallb_forall. split.
+  intros k E x obs. unfold check_from, check_from_with. fold (lfp_from k E x). rewrite andb_true_iff, !forallb_forall. split.
   - intros [H1 H2] y. split.
     + intro HIn. apply lfp_reach with (k := k). apply H2. exact HIn.
     + intro HR. apply n_mem_spec. apply H1. apply lfp_from_spec. exact HR.
   - intro H. split.
     + intros y HIn. apply n_mem_spec. apply H. apply lfp_from_spec in HIn. exact HIn.
     + intros y HIn. apply lfp_reach. apply H. exact HIn.
+Qed.
+
+Lemma check_graph_spec : forall k E obs froms bounds, check_graph k E obs froms bounds = true <->
+  (forall x y, In (x, y) obs <-> reach E x y) /\ (forall x l, In (x, l) froms -> forall y, In y l <-> reach E x y) /\
+  (forall x y b, In (x, y, b) bounds -> (b = true <-> reach E x y)).
+Proof.
+  intros k E obs froms bounds. unfold check_graph. cbv zeta. fold (check_all k E obs).
+  rewrite !andb_true_iff, check_all_spec, !forallb_forall. split.
+  - intros [[H1 H2] H3]. split; [exact H1|]. split.
+    + intros x l HIn. specialize (H2 _ HIn). cbn [fst snd] in H2.
+      fold (check_from k E x l) in H2. exact (proj1 (check_from_spec k E x l) H2).
+    + intros x y b HIn. specialize (H3 _ HIn). cbn [fst snd] in H3. apply eqb_prop in H3. rewrite <- lfp_reach with (k := k).
+      rewrite H3. tauto.
+  - intros [H1 [H2 H3]]. split; [split; [exact H1|]|].
+    + intros [x l] HIn. cbn [fst snd]. fold (check_from k E x l).
+      apply (proj2 (check_from_spec k E x l)). apply H2. exact HIn.
+    + intros [[x y] b] HIn. cbn [fst snd]. specialize (H3 _ _ _ HIn). rewrite <- lfp_reach with (k := k) in H3.
+      destruct (lfp k E x y), b; try reflexivity.
+      * destruct H3 as [_ H3]. discriminate H3. reflexivity.
+      * destruct H3 as [H3 _]. discriminate H3. reflexivity.
+Qed.
+
+(* ------------------------------------------------------------------ certificate checker *)
+Lemma valid_path_reach : forall E p x y, valid_path E x p y = true -> reach E x y.
+Proof.
+  intros E. induction p as [|z p IH]; intros x y H; cbn [valid_path] in H.
+  - apply t_step. apply erel_spec. exact H.
+  - apply andb_true_iff in H. destruct H as [H1 H2]. eapply t_trans; [apply t_step; apply erel_spec; exact H1 | apply IH; exact H2].
+Qed.
+
+Lemma closed_right_reach : forall E obs, closed_right E obs = true -> forall x y, reach E x y -> In (x, y) obs.
+Proof.
+  intros E obs H x y R. unfold closed_right in H. apply andb_true_iff in H. destruct H as [H1 H2].
+  rewrite forallb_forall in H1, H2.
+  apply clos_trans_t1n in R. induction R as [x y R | x z y R1 R2 IH].
+  - apply pair_mem_spec. apply H1. exact R.
+  - specialize (H2 _ R1). rewrite forallb_forall in H2. specialize (H2 _ IH). cbn [fst snd] in H2.
+    rewrite N.eqb_refl in H2. cbn in H2. apply pair_mem_spec. exact H2.
+Qed.
+
+Lemma same_set_spec : forall a b, same_set a b = true -> forall p, In p a <-> In p b.
+Proof.
+  intros a b H p. unfold same_set in H. apply andb_true_iff in H. destruct H as [H1 H2].
+  rewrite forallb_forall in H1, H2. split; intro HIn; apply pair_mem_spec; auto.
+Qed.
+
+Lemma from_ok_spec : forall all x ys, from_ok all x ys = true -> forall y, In y ys <-> In (x, y) all.
+Proof.
+  intros all x ys H y. unfold from_ok in H. apply andb_true_iff in H. destruct H as [H1 H2].
+  rewrite forallb_forall in H1, H2. split; intro HIn.
+  - apply pair_mem_spec. apply H1. exact HIn.
+  - specialize (H2 _ HIn). cbn [fst snd] in H2. rewrite N.eqb_refl in H2. cbn in H2. apply n_mem_spec. exact H2.
+Qed.
+
+Lemma cert_check_spec : forall E certs others froms bounds, cert_check E certs others froms bounds = true ->
+  (forall x y, In (x, y) (map ends certs) <-> reach E x y) /\
+  (forall o, In o others -> forall x y, In (x, y) o <-> reach E x y) /\
+  (forall x ys, In (x, ys) froms -> forall y, In y ys <-> reach E x y) /\
+  (forall x y b, In (x, y, b) bounds -> (b = true <-> reach E x y)).
+Proof.
+  intros E certs others froms bounds H. unfold cert_check in H. cbv zeta in H.
+  apply andb_true_iff in H. destruct H as [H Hb].
+  apply andb_true_iff in H. destruct H as [H Hf]. apply andb_true_iff in H. destruct H as [H Ho].
+  apply andb_true_iff in H. destruct H as [Hc Hv].
+  assert (A : forall x y, In (x, y) (map ends certs) <-> reach E x y).
+  { intros x y. split.
+    - intro HIn. apply in_map_iff in HIn. destruct HIn as [[[a p] b] [He HIn]]. unfold ends in He. cbn [fst snd] in He.
+      injection He as -> ->. rewrite forallb_forall in Hv. specialize (Hv _ HIn). cbn [fst snd] in Hv.
+      eapply valid_path_reach. exact Hv.
+    - apply closed_right_reach. exact Hc. }
+  split; [exact A|]. split; [|split].
+  - intros o Ho' x y. rewrite forallb_forall in Ho. specialize (Ho _ Ho'). rewrite <- A. symmetry. apply same_set_spec. exact Ho.
+  - intros x ys HIn y. rewrite forallb_forall in Hf. specialize (Hf _ HIn). cbn [fst snd] in Hf. rewrite <- A.
+    apply from_ok_spec. exact Hf.
+  - intros x y b HIn. rewrite forallb_forall in Hb. specialize (Hb _ HIn). cbn [fst snd] in Hb. apply eqb_prop in Hb.
+    rewrite <- A, <- pair_mem_spec, Hb. tauto.
+Qed.
+
+Lemma cert_check_lfp : forall k E certs others froms bounds, cert_check E certs others froms bounds = true ->
+  (forall x y, In (x, y) (map ends certs) <-> lfp k E x y = true) /\
+  (forall o, In o others -> forall x y, In (x, y) o <-> lfp k E x y = true) /\
+  (forall x ys, In (x, ys) froms -> forall y, In y ys <-> lfp k E x y = true) /\
+  (forall x y b, In (x, y, b) bounds -> (b = true <-> lfp k E x y = true)).
+Proof.
+  intros k E certs others froms bounds H. destruct (cert_check_spec _ _ _ _ _ H) as [A [B [C D]]].
+  split; [|split; [|split]].
+  - intros x y. rewrite lfp_reach. apply A.
+  - intros o Ho x y. rewrite lfp_reach. apply (B o Ho).
+  - intros x ys HIn y. rewrite lfp_reach. apply (C x ys HIn).
+  - intros x y b HIn. rewrite lfp_reach. apply (D x y b HIn).
 Qed.
